@@ -150,7 +150,7 @@ func runC19DNS(c c19DNS) error {
 }
 
 func TestC19ResolversCmd(t *testing.T) {
-	vh.Check(t, 6, 60, func(t *rapid.T) {
+	vh.Check(t, 6, 24, func(t *rapid.T) {
 		c := c19DNS{TTL: rapid.SampledFrom([]string{"0", "0s", "30ms", "1h", "-1", "-1s", "-1ns"}).Draw(t, "ttl"), Resolver: rapid.IntRange(1, 3).Draw(t, "nres"),
 			ConnectTo: rapid.Bool().Draw(t, "connectto"), NoKeepAlive: rapid.Bool().Draw(t, "nokeepalive")}
 		vh.Case("C19.resolverscmd", fmt.Sprintf("%+v", c), true, "ttl:"+c.TTL)
